@@ -36,7 +36,15 @@ def render_triple_lines(rec, variant):
         lines.append((f".word ^R{lit.lower() if variant % 2 else lit}", rec["w"]))
         if variant % 5 == 0:
             lines.append((f".word ^r{lit}", rec["w"]))
+        if variant % 4 == 1 or rec["w"] >= 32768:
+            # the literal is the NUMBER 0..63999: as a double word its high half is zero, and it divides like a positive number
+            lines.append((f".dword ^R{lit}", (0, rec["w"])))
+            lines.append((f".word ^R{lit} / 3100", rec["w"] // 1600))
     return lines
+
+
+def pack_words(w):
+    return struct.pack("<H", w) if isinstance(w, int) else b"".join(struct.pack("<H", x) for x in w)
 
 
 def run_batch(task):
@@ -44,13 +52,13 @@ def run_batch(task):
     lines, words = task
     src = "\n".join(lines) + "\n"
     r = asm([("r50.mac", src)], timeout=60)
-    want = b"".join(struct.pack("<H", w) for w in words)
+    want = b"".join(pack_words(w) for w in words)
     if r["outcome"] == "ok" and r["code"] == want:
         return []
     bad = []
     for ln, w in zip(lines, words):
         r1 = asm([("r50.mac", ln + "\n")], timeout=5)
-        if not (r1["outcome"] == "ok" and r1["code"] == struct.pack("<H", w)):
+        if not (r1["outcome"] == "ok" and r1["code"] == pack_words(w)):
             bad.append((ln, w, r1["outcome"], r1["code"].hex() if r1["code"] is not None else None, r1["exc"],
                         [x[1] for x in r1["reports"]]))
     if not bad:
@@ -61,7 +69,7 @@ def run_batch(task):
 def render_string(rec, variant):
     rnd = random.Random(variant)
     q = ["/", '"', "'"][variant % 3]
-    out, cur = [], ""
+    out, cur, defs = [], "", []
     for it in rec["items"]:
         if it["k"] == "ch":
             cur += it["ch"].lower() if it["lower"] else it["ch"]
@@ -71,10 +79,15 @@ def render_string(rec, variant):
             if cur:
                 out.append(q + cur + q)
                 cur = ""
-            out.append(f"<{it['v']}.>" if variant % 2 else f"<{it['v']:o}>")
+            if variant % 3 == 2:
+                # the code written as a symbol that is defined BELOW the directive
+                out.append(f"<rq{len(defs)}>")
+                defs.append(f"rq{len(defs)} = {it['v']:o}")
+            else:
+                out.append(f"<{it['v']}.>" if variant % 2 else f"<{it['v']:o}>")
     if cur or not out:
         out.append(q + cur + q)
-    return ".rad50 " + (" " if variant % 4 == 0 else "").join(out)
+    return "\n".join([".rad50 " + (" " if variant % 4 == 0 else "").join(out)] + defs)
 
 
 def run_string(task):
